@@ -188,14 +188,14 @@ _NP = np.eye(_NK) - _NA @ np.linalg.pinv(_NA)                                 # 
 def map_noise(f, x, delta, lower=None):
     """Empirical rounding noise of the map near x: the map is sampled at 14 irregular (non-dyadic, so
     that periodic rounding patterns are not aliased away) offsets within +-delta, delta <= l/256, a
-    cubic is fitted and the largest residual is returned (x2).  The smooth remainder of the map
+    cubic is fitted and the largest residual is returned (x4).  The smooth remainder of the map
     beyond a cubic is < 1e-10 * l * slope at this width; what is left is rounding, including the
     slowly varying 'staircase' error of cancelling terms."""
     c = x if lower is None else np.maximum(x, lower + delta)
     with np.errstate(all="ignore"):
         F = np.array([f(c + delta * t) for t in _NT])
         res = _NP @ F
-    noise = 2.0 * np.max(np.abs(res), axis=0)
+    noise = 4.0 * np.max(np.abs(res), axis=0)
     return np.where(np.isfinite(noise), noise, np.inf)
 
 
@@ -378,7 +378,12 @@ def check_state(st_: State, v: Verdict, tag: str):
             with np.errstate(all="ignore"):
                 back = np.asarray(g.compactify(vals["z"], zeros, zeros)[0], dtype=float)
             err = np.abs(back - x)
-            if not np.all(err <= TOL_INV):
+            # rounding noise of the forward map around x (measured: fd["z"] rnd), converted to chi
+            # with the Jacobian: the best any inverse of that map can do
+            rnd_z = fd["z"][5]
+            with np.errstate(all="ignore"):
+                noise_chi = np.where(np.isfinite(rnd_z), rnd_z, 0.0) / np.abs(jacs["z"])
+            if not np.all(err <= TOL_INV + 4 * noise_chi):
                 i = int(np.argmax(np.where(np.isnan(err), np.inf, err)))
                 fail("inverse-map", cls, f"compactify(decompactify(chi)) - chi = {back[i] - x[i]:.3e} at chi = {x[i]!r} "
                      f"(z = {vals['z'][i]!r})", max_err=float(np.nanmax(err)))
@@ -387,6 +392,8 @@ def check_state(st_: State, v: Verdict, tag: str):
             with np.errstate(all="ignore"):
                 z2 = np.asarray(g.decompactify(back, zeros, zeros)[0], dtype=float)
             tolp = 16 * EPS * (np.abs(jacs["z"]) + np.abs(vals["z"]) + map_scale(p, "z", x, vals["z"]))
+            # the forward map is only defined up to its own (measured) rounding noise
+            tolp = tolp + 4 * np.where(np.isfinite(rnd_z), rnd_z, 0.0)
             if not np.all(np.abs(z2 - vals["z"]) <= tolp):
                 i = int(np.argmax(np.abs(z2 - vals["z"]) / tolp))
                 fail("inverse-map", cls, f"decompactify(compactify(z)) = {z2[i]!r} for z = {vals['z'][i]!r}")
